@@ -5,6 +5,8 @@ package checks
 import (
 	"encoding/json"
 	"fmt"
+	"strconv"
+	"strings"
 	"testing"
 
 	"github.com/theory/sqljson/path/exec"
@@ -122,6 +124,48 @@ var dtStrings = []string{
 	"2015-08-01T12:34:56+05:30", "2015-08-01 12:34:56Z", "2015-08-01T12:34:56-04", "2015-08-01T00:00:00+00:00", "2015-08-02T00:00:00-04:00", "2015-08-01T23:59:59.999999+14:00", "2015-08-01T12:34:56.123456789+01", "2015-08-01T04:00:00Z", "2015-08-01T07:04:56Z",
 	"2015-11-01T01:30:00-04:00", "2015-11-01T01:30:00-05:00", "2015-11-01T06:30:00Z", "2015-03-08T03:30:00-04:00", "2015-03-08T01:30:00-05:00", "2015-03-08T07:30:00Z", "2015-11-01T02:30:00", "2015-03-08T03:30:00",
 	"abc", "", "2015-02-30", "12:34", "2015-08-01T12:34", "20150801",
+}
+
+// dtEast: dates and instants around the 2023 DST transitions of Australia/Sydney (and
+// Pacific/Auckland), which happen before UTC midnight of the local transition day, and
+// instants a fraction of a second after a midnight.
+var dtEast = []string{
+	"2023-10-01", "2023-09-30", "2023-10-02", "2023-10-01T00:00:00", "2023-10-01T02:30:00", "2023-10-01T03:00:00", "2023-09-30T16:00:00Z", "2023-09-30T13:00:00Z", "2023-09-30T14:00:00+00:00", "2023-09-30T15:59:59.999999Z",
+	"2023-10-01T00:00:00+10:00", "2023-10-01T00:00:00+11:00", "2023-04-02", "2023-04-02T02:30:00", "2023-04-01T15:30:00Z", "2023-04-01T16:30:00Z", "2023-04-02T00:00:00+11:00", "2023-04-02T00:00:00+10:00",
+	"2023-09-24", "2023-09-23T12:00:00Z", "2023-09-24T00:00:00+12:00", "2023-09-24T00:00:00+13:00", "2023-09-24T02:30:00",
+	"2024-03-10", "2024-03-10T00:00:00.25", "2024-03-10T00:00:00.999999", "2024-03-10T00:00:00", "2024-03-10T00:00:00.000001", "2024-03-09T23:59:59.75", "2024-03-10T00:00:00.25Z", "2024-03-10T05:00:00.5Z",
+	"23:59:59.7+05:00", "23:59:59.4+05:00", "00:00:00+05:00", "23:59:59.7", "23:59:59.9999996", "2024-03-10T23:59:59.7", "2024-03-10T23:59:59.9999996+01:00",
+}
+
+var checkStringBackCase = register("c17.stringback", func(c DTCase) *Violation { return checkStringBack(c) })
+
+// checkStringBack: x.string() converted back with the method matching x's type is equal to x.
+func checkStringBack(c DTCase) *Violation {
+	if len(c.A) > 4 && c.A[4] == '-' && strings.Contains(c.Zone, "/") {
+		if y, err := strconv.Atoi(c.A[:4]); err == nil && y < 1900 {
+			// local mean time: the zone offset has seconds, which the documented output
+			// format (-07:00) does not print; not a value this relation can speak about
+			return nil
+		}
+	}
+	typ, _, ok := runDT(DTCase{Path: c.Path + ".type()", A: c.A, TZ: c.TZ, Zone: c.Zone})
+	if !ok || typ.Class != EOK || len(typ.Items) != 1 {
+		return nil // the cast itself is rejected (c17.datetime decides whether rightly)
+	}
+	m2 := map[string]string{"date": "date", "time without time zone": "time", "time with time zone": "time_tz", "timestamp without time zone": "timestamp", "timestamp with time zone": "timestamp_tz"}[fmt.Sprint(typ.Items[0])]
+	if m2 == "" {
+		return violf("%s with a=%q has type %v", c.Path, c.A, typ.Items[0])
+	}
+	rel := fmt.Sprintf("%s.string().%s() == %s", c.Path, m2, c.Path)
+	got, _, ok := runDT(DTCase{Path: rel, A: c.A, TZ: c.TZ, Zone: c.Zone})
+	if !ok {
+		return violf("harness: %q does not parse", rel)
+	}
+	if got.Panic != "" || got.Class != EOK || len(got.Items) != 1 || got.Items[0] != true {
+		str, _, _ := runDT(DTCase{Path: c.Path + ".string()", A: c.A, TZ: c.TZ, Zone: c.Zone})
+		return violf("%s with a=%q zone=%q: the value prints as %v, but converting that string back with .%s() does not give an equal value: %s", rel, c.A, c.Zone, RenderSeq(str.Items, false), m2, got)
+	}
+	return nil
 }
 
 var dtMethods = []string{"datetime", "date", "time", "time_tz", "timestamp", "timestamp_tz"}
@@ -315,6 +359,42 @@ func TestC17(t *testing.T) {
 		}
 	}
 	runTable("coherence_and_antisymmetry", "c17.coherence", coh, func(c DTCase) (*Violation, dtFacts) { return checkDTCoherence(c), dtFacts{class: "relation"} })
+	// zones east of UTC whose DST transitions fall before UTC midnight, and instants a fraction of a second after midnight
+	var east, eastCoh []DTCase
+	for _, a := range dtEast {
+		for _, z := range []string{"Australia/Sydney", "Pacific/Auckland", "UTC", "America/New_York"} {
+			for _, m := range dtMethods {
+				east = append(east, DTCase{Path: "$a." + m + "().string()", A: a, TZ: true, Zone: z}, DTCase{Path: "$a." + m + "()." + "timestamp_tz().string()", A: a, TZ: true, Zone: z}, DTCase{Path: "$a." + m + "().date().string()", A: a, TZ: true, Zone: z})
+			}
+			for _, b := range dtEast {
+				for _, op := range []string{"==", "<", ">="} {
+					east = append(east, DTCase{Path: "$a.datetime() " + op + " $b.datetime()", A: a, B: b, TZ: true, Zone: z})
+				}
+				eastCoh = append(eastCoh, DTCase{A: a, B: b, TZ: true, Zone: z})
+			}
+		}
+	}
+	runTable("eastern_dst_zones_and_fractions_after_midnight", "c17.datetime", east, checkDTFacts)
+	runTable("eastern_coherence_and_antisymmetry", "c17.coherence", eastCoh, func(c DTCase) (*Violation, dtFacts) { return checkDTCoherence(c), dtFacts{class: "relation"} })
+	// a datetime value converts to a string that converts back to an equal value
+	var back []DTCase
+	for _, a := range append(append([]string{}, dtStrings[:45]...), dtEast...) {
+		for _, m := range dtMethods {
+			for _, p := range []int{-1, 0, 1, 3, 6} {
+				for _, z := range []string{"", "America/New_York"} {
+					path := "$a." + m + "()"
+					if p >= 0 {
+						if m == "date" || m == "datetime" {
+							continue
+						}
+						path = fmt.Sprintf("$a.%s(%d)", m, p)
+					}
+					back = append(back, DTCase{Path: path, A: a, TZ: true, Zone: z})
+				}
+			}
+		}
+	}
+	runTable("string_converts_back_to_an_equal_value", "c17.stringback", back, func(c DTCase) (*Violation, dtFacts) { return checkStringBack(c), dtFacts{class: "relation"} })
 	// transitivity over triples of the comparable corpus, through the implementation's answers
 	t.Run("transitivity", func(t *testing.T) {
 		b := ev.enum(t)
